@@ -81,6 +81,8 @@ func contains(xs []uint64, x uint64) bool {
 type obs struct {
 	r             *vk.Run
 	lastPersisted uint64 // largest DA-included height seen in a persist write
+	// starting: a Manager is being constructed right now (it may record the height it starts from: not a new inclusion)
+	starting atomic.Bool
 	viol          []string
 	mu            sync.Mutex
 	lastD         uint64 // highest DA-included height ever observed (also across restarts)
@@ -169,6 +171,16 @@ func (o *obs) onWrite(rec world.WriteRec) {
 		fmt.Sscanf(rec.Vals[i], "%02x%02x%02x%02x%02x%02x%02x%02x", &b[0], &b[1], &b[2], &b[3], &b[4], &b[5], &b[6], &b[7])
 		v := binary.LittleEndian.Uint64(b[:])
 		o.mu.Lock()
+		if o.starting.Load() {
+			// a node that is starting records where it starts from: it must not be below what was durable before
+			if v < o.lastPersisted {
+				o.viol = append(o.viol, fmt.Sprintf("at start-up the persisted DA-included height was overwritten with %d; %d was durable before: it went down", v, o.lastPersisted))
+			} else {
+				o.lastPersisted = v
+			}
+			o.mu.Unlock()
+			continue
+		}
 		if v <= o.lastPersisted {
 			o.mu.Unlock()
 			continue // re-writing a value that is durable already changes nothing
@@ -225,7 +237,9 @@ type agg struct {
 func (a *agg) start() error {
 	dsp := world.NewMemDS(a.im)
 	dsp.OnWrite = a.o.onWrite
+	a.o.starting.Store(true)
 	n, err := world.NewNode(a.ctx, world.NodeOpts{Aggregator: true, InitialHeight: a.c.Initial, RootDir: a.root}, a.keys, dsp, a.exec, a.seq, a.da, nil)
+	a.o.starting.Store(false)
 	if err != nil {
 		return err
 	}
